@@ -242,6 +242,8 @@ def call(cb: Any, e: ast.Call, s: St, quiet: bool) -> tuple[Any, St]:
         cv = s.get(e.func.id)
         if isinstance(cv, ObjV) and cv.tag.startswith('tdc.'):
             v = args[0] if args else None
+            if v is None and kw(e, 'tensor') is not None:
+                v, s = cb.ev(kw(e, 'tensor'), s, quiet)
             symn = kw(e, 'symmetric')
             it.events.append(('comm', f, e, (cv.tag[4:], v, norm(symn) if symn is not None else 'False')))
             return (v.fresh() if isinstance(v, TV) else v), s
@@ -263,7 +265,7 @@ def call(cb: Any, e: ast.Call, s: St, quiet: bool) -> tuple[Any, St]:
                 return method_on_object(cb, e, recv, m, args, s, quiet)
             if isinstance(recv, ObjV) and recv.tag == 'tdc':
                 # communication through the communicator returns the communicated value (new buffer)
-                if m in ('allreduce', 'allreduce_bucketed', 'broadcast') and args:
+                if m in ('allreduce', 'allreduce_bucketed', 'broadcast') and (args or kw(e, 'tensor') is not None):
                     v = args[0] if args else None
                     if v is None:
                         tn = kw(e, 'tensor')
